@@ -428,7 +428,17 @@ def _resolve_import(rule, target):
 
     # adjust relative URI references
     log.info('@import: Adjusting paths for %r' % rule.href, neverraise=True)
-    replaceUrls(importedSheet, Replacer(rule.href), ignoreImportRules=True)
+    replacer = Replacer(rule.href)
+    replaceUrls(importedSheet, replacer, ignoreImportRules=True)
+    for r in importedSheet:
+        if r.type == r.IMPORT_RULE:
+            # an @import which was kept means the same sheet from its new
+            # place (and is not loaded again as assigning to href would do)
+            try:
+                r._updateHref(replacer(r.href))
+            except ValueError:
+                # malformed, refers to nothing from anywhere
+                pass
 
     try:
         media_proxy = _check_media_proxy(rule, importedSheet)
